@@ -58,6 +58,7 @@ type rpcCall struct {
 	k         int  // stream length
 	size      int  // payload size
 	fail      bool // streaming calls: the handler ends with an application-defined status after streaming
+	sub       int    // number of subservice calls in front of the method call (request with several calls)
 	pad       []byte // extra request bytes (field 7), not covered by the crc: large requests for back-pressure scenarios
 }
 
@@ -156,6 +157,9 @@ func buildRequest(c rpcCall) (prpc.Request, *rpc.Request, status.Status) {
 	if len(c.pad) > 0 {
 		w.Field(7).Bytes(c.pad)
 	}
+	if c.sub > 0 {
+		w.Field(8).Int32(int32(c.sub))
+	}
 	b, err := w.Build()
 	if err != nil {
 		return prpc.Request{}, nil, status.WrapError(err)
@@ -165,6 +169,25 @@ func buildRequest(c rpcCall) (prpc.Request, *rpc.Request, status.Status) {
 		return prpc.Request{}, nil, status.WrapError(err)
 	}
 	req := rpc.NewRequest()
+	for i := 0; i < c.sub; i++ {
+		sw := spec.NewMessageWriter()
+		sw.Field(1).Uint64(c.id + uint64(i))
+		sw.Field(2).String(fmt.Sprintf("sub-%d-of-%d", i, c.id))
+		sb, err := sw.Build()
+		if err != nil {
+			req.Free()
+			return prpc.Request{}, nil, status.WrapError(err)
+		}
+		sm, err := spec.OpenMessageErr(append([]byte(nil), sb...))
+		if err != nil {
+			req.Free()
+			return prpc.Request{}, nil, status.WrapError(err)
+		}
+		if st := req.AddMessage(fmt.Sprintf("sub%d", i), sm); !st.OK() {
+			req.Free()
+			return prpc.Request{}, nil, st
+		}
+	}
 	if st := req.AddMessage(fmt.Sprintf("m%d", c.behaviour), msg); !st.OK() {
 		req.Free()
 		return prpc.Request{}, nil, st
@@ -185,6 +208,7 @@ type rpcServerSide struct {
 	enter   atomic.Int64
 	exit    atomic.Int64
 	blockCh chan struct{} // optional: handlers of behaviour bLate wait on it (fault checks)
+	subcalls atomic.Int64 // subservice calls seen in front of method calls
 	rereads atomic.Int64  // handlers that asked for the request a second time after streamed messages
 }
 
@@ -209,12 +233,25 @@ func (s *rpcServerSide) handle(ctx rpc.Context, ch rpc.ServerChannel) (ref.R[[]b
 		return nil, st
 	}
 	calls := req.Calls()
-	if calls.Len() != 1 {
+	if calls.Len() < 1 {
 		s.fail("request carries %d calls", calls.Len())
 		return nil, status.Errorf("bad request")
 	}
-	call := calls.Get(0)
+	call := calls.Get(calls.Len() - 1)
 	in := call.Input()
+	if sub := int(in.Int32(8)); sub != calls.Len()-1 {
+		s.fail("request of call %d carries %d calls, the caller put %d subservice calls in front of the method call", in.Uint64(1), calls.Len(), sub)
+		return nil, status.Errorf("bad request")
+	}
+	for i := 0; i < calls.Len()-1; i++ {
+		sc := calls.Get(i)
+		si := sc.Input()
+		if string(sc.Method()) != fmt.Sprintf("sub%d", i) || si.Uint64(1) != in.Uint64(1)+uint64(i) || si.String(2).Unwrap() != fmt.Sprintf("sub-%d-of-%d", i, in.Uint64(1)) {
+			s.fail("subservice call %d of call %d arrived as method %q with input (%d, %q)", i, in.Uint64(1), sc.Method(), si.Uint64(1), si.String(2).Unwrap())
+			return nil, status.Errorf("bad request")
+		}
+		s.subcalls.Add(1)
+	}
 	c := rpcCall{id: in.Uint64(1), behaviour: int(in.Int32(2)), k: int(in.Int32(3)), size: int(in.Int32(4)), fail: in.Bool(6)}
 	var h [20]byte
 	binary.BigEndian.PutUint64(h[:], c.id)
